@@ -26,7 +26,7 @@ EXPLANATION = (
     "entry points, _fileIdIncr is written only by the constructor and SetFileIdIncrement, whose offset expression is "
     "evaluated from its expression tree for every MaxFileId in [0,200000] and powers of two up to 2^30 and must exceed "
     "it. (R4) In ReadEntityRef `id += addFileId` dominates FindFileId(id). (R5) maxFileId, from which the offset is computed, is a high-water mark: "
-    "it is only written -1, max+1 or an instance id under the guard `id > MaxFileId()` (writer rule shared with C13). Not decided: that earlier instances keep "
+    "it is only written -1, max+1 or an instance id under the guard `id > MaxFileId()` (writer rule shared with C13). (R5) writers of maxFileId (shared with C13 R3). (R6) every InstMgr method that empties the master array leaves maxFileId below the threshold of STEPfile::SetFileIdIncrement's emptiness test. Not decided: that earlier instances keep "
     "their values; behaviour for ids near INT_MAX.")
 
 FAMILY = r"^(addFileId|idIncr\w*|fileIdIncr)$"
